@@ -14,7 +14,11 @@ Parts (all deterministic; VERIF_SEED only moves the strides/offsets of the quick
            gateway has an encoding for that length, in which case the bytes must be the reference's
   seq      700 consecutive sends per driver with sequence numbers, from several starting points
   decode   every status/type code of each gateway's report format x payload values -> what the driver
-           reports (backward frame value / no answer / framing error / forward frame) == reference decoder
+           reports (backward frame value / no answer / framing error / forward frame) == reference decoder;
+           LUBA / SCI: every code once more behind a packet with a damaged checksum
+  unipi-bus  the UniPi driver on every channel of the unit (constructor option bus=0..3) against a register-level
+           model of the gateway: register numbers written (send pair) and read (receive triple, framing-error
+           counter) == ref_wire.UNIPI_REGS, and the answer that comes back through them
 """
 import asyncio
 import logging
@@ -25,7 +29,8 @@ from harness.runner import Result, library_frame
 ID = "C18"
 LEVEL = "exploration"
 RULE = ("one case = (driver, frame bits, frame value, device type) for encode/length, (driver, start) for seq, "
-        "(driver, type/status code, payload) for decode; distinct by construction (enumeration); non-trivial = the "
+        "(driver, type/status code, payload[, damaged packet in front]) for decode, (UniPi channel, frame, scripted "
+        "answer) for unipi-bus; distinct by construction (enumeration); non-trivial = the "
         "driver accepted the command and its bytes were compared, or a gateway report was decoded and compared, or a "
         "refusal was required (lengths the gateway cannot carry)")
 ASSUMPTIONS = list(RW.ASSUMPTIONS) + [
@@ -43,6 +48,11 @@ ASSUMPTIONS = list(RW.ASSUMPTIONS) + [
     "reported as a clean backward or forward frame; own-echo forward frames may be ignored; legacy Tridonic: observed "
     "backward frames and 24-bit forward frames may be ignored, type 0x74 is not judged (the two Tridonic drivers of "
     "the library disagree about it)",
+    "UniPi channels: the register model delivers the answer into the channel's receive triple when the driver next "
+    "sleeps after writing a decodable send pair to the START register of a channel's send pair, and moves the other "
+    "channels' receive counters (with other data) at the same moment; registers in the DALI block that belong to "
+    "another channel must not be read or written, registers outside it are not judged; a Compare whose only evidence "
+    "is the channel's framing-error counter may be reported as YES (0xFF) or as a framing error",
     "the conversation needed to complete a send (echo reports, transmit confirmations, status frames) is played as "
     "the driver expects it; C18 judges formats, not the conversation (C15-C17)",
 ]
@@ -89,10 +99,18 @@ def _env():
     A.time = FakeTime()
     H2.time = FakeTime()
     H2.sleep = lambda *_a: None
-    U.sleep = lambda *_a: None
+    U.sleep = _unipi_sleep
     _ENV.update(command=command, frame=frame, address=address, H=H, S=S, D=D, A=A, T=T, H2=H2, U=U, loop=loop,
                 os=fos, gg=dali.gear.general)
     return _ENV
+
+
+_UNIPI_CLOCK = []        # register models that want to see the driver's sleep() calls
+
+
+def _unipi_sleep(t=0, *_a):
+    for m in _UNIPI_CLOCK:
+        m.tick(t)
 
 
 class FakeTime:
@@ -477,6 +495,67 @@ class Unipi:
         return out, [w for w in self.d.backend.pymc.writes]
 
 
+class UnipiGateway:
+    """Register-level model of the UniPi unit: a stand-in for the pymodbus client.  A frame written to the send
+    pair of channel b goes out on DALI line b; the gear on line b answers as scripted, and the answer shows up in
+    the receive triple of channel b once time has passed (the driver's sleep()).  The other lines see unrelated
+    traffic meanwhile (their counters move too), so that reading another channel's registers gives a wrong result
+    instead of an accidentally right one."""
+
+    def __init__(self, answers, fe_on):
+        self.answers = answers          # line -> backward frame value | None
+        self.fe_on = fe_on              # set of framing-error registers that count up after a transmission
+        self.regs = {}
+        for bus, r in RW.UNIPI_REGS.items():
+            self.regs[r["recv"][0]] = 100 + bus
+            self.regs[r["fe"]] = 7
+        self.writes = []                # (start register, values)
+        self.reads = []                 # (start register, count)
+        self.transmitted = []           # (line, bits, value, twice)
+        self.pending = []
+
+    # -- pymodbus 2.x client surface used by RemoteArm
+    def write_register(self, reg, value, unit=None, **kw):
+        self.write_registers(reg, (value,))
+
+    def write_registers(self, reg, values, unit=None, **kw):
+        values = tuple(values)
+        self.writes.append((reg, values))
+        bus = RW.unipi_bus_of_send_register(reg)
+        frame = RW.unipi_decode_send(values)
+        if bus is not None and frame is not None:
+            self.transmitted.append((bus,) + frame)
+            self.pending.append(bus)
+
+    def read_holding_registers(self, reg, cnt, unit=None, **kw):
+        from harness.stubs import pymodbus_client_sync_stub as stub
+        self.reads.append((reg, cnt))
+        return stub._Resp([self.regs.get(reg + i, 0) for i in range(cnt)])
+
+    def write_coil(self, reg, val, unit=None, **kw):
+        self.writes.append(("coil", reg, val))
+
+    def close(self):
+        pass
+
+    def tick(self, t):
+        if not self.pending:
+            return
+        sent, self.pending = self.pending, []
+        for bus, r in RW.UNIPI_REGS.items():
+            c, ty, da = r["recv"]
+            if bus in sent:
+                v = self.answers.get(bus)
+                if v is not None:
+                    self.regs[c] = (self.regs[c] + 1) & 0xFFFF
+                    self.regs[ty], self.regs[da] = 0x100, v
+            else:       # unrelated traffic on the other lines: somebody's forward frame and its answer
+                self.regs[c] = (self.regs[c] + 2) & 0xFFFF
+                self.regs[ty], self.regs[da] = 0x100, (0x31 + 0x45 * bus) & 0xFF
+        for reg in self.fe_on:
+            self.regs[reg] = (self.regs[reg] + 1) & 0xFFFF
+
+
 RIG_CLASSES = {c.name: c for c in (TridonicHid, HassebHid, Luba, Sci, Daliserver, Atx, LegacyTridonic, LegacyHasseb,
                                    Unipi)}
 _RIGS = {}
@@ -848,6 +927,16 @@ def case_decode(case):
             ref = RW.sci_decode(under)
             pk = [RW.sci_frame(0x00, 0, 0, 0), under]
             where = "sci frame %s" % under.hex()
+        dmg = case.get("damaged")
+        if dmg:
+            # line noise first: a packet that would be a backward frame 0xEE, with a wrong checksum (dropped as a
+            # whole); the well-formed packets behind it still denote what they denote
+            if driver == "luba":
+                bad = RW.luba_frame(RW.LUBA_EVENT, [0, 0, 0, (2 << 6) | 8, 0xEE], bad_checksum=dmg)
+            else:
+                bad = RW.sci_frame(0x02, 0, 0, 0xEE, bad_checksum=dmg)
+            pk = [bad] + pk
+            where += " preceded by the damaged packet %s" % bad.hex()
         out, seen = r.transact(cmd, lambda data: pk)
         seen = [(len(c.frame), c.frame.as_integer) for c in seen]
         if ref["kind"] in ("sent",):
@@ -923,6 +1012,76 @@ def case_decode(case):
     raise KeyError(driver)
 
 
+def case_unipi_bus(case):
+    """UniPi, channel `bus` of the unit: the register numbers written and read, against RW.UNIPI_REGS, and the
+    answer that comes back through them."""
+    env = _env()
+    bus, bits, value = case["bus"], case["bits"], case["value"]
+    answer, fe = case.get("answer"), case.get("fe", "none")
+    lay = RW.UNIPI_REGS[bus]
+    cmd = make_cmd(bits, value, case.get("dt", 0))
+    twice = bool(cmd.sendtwice)
+    other_fe = sorted({r["fe"] for r in RW.UNIPI_REGS.values()} - {lay["fe"]})
+    fe_on = {"none": set(), "own": {lay["fe"]}, "other": set(other_fe)}[fe]
+    made = _call(env["U"].SyncUnipiDALIDriver, bus)
+    if made[0] != "ok":
+        return [("C18:unipi:bus:constructor-raised", "SyncUnipiDALIDriver(bus=%d) raised %r" % (bus, made[1]))]
+    d = made[1]
+    gw = UnipiGateway({bus: answer}, fe_on)
+    d.backend.pymc = gw
+    _UNIPI_CLOCK.append(gw)
+    try:
+        out = _call(d.send, cmd)
+    finally:
+        _UNIPI_CLOCK.remove(gw)
+    where = "unipi bus=%d %s %d-bit frame %#x (sendtwice=%s, gear answers %r, framing-error counter moving: %s)" % (
+        bus, type(cmd).__name__, bits, value, twice, answer, fe)
+    vs = []
+    regs = RW.unipi_encode(bits, value, twice)
+    wr = [w for w in gw.writes if w[0] != "coil"]
+    if out[0] == "raised" and not wr:
+        return []                       # refusing is always allowed
+    exp_one = (lay["send"][0], regs)
+    exps = [[exp_one], [exp_one, exp_one]] if twice else [[exp_one]]
+    if wr not in exps:
+        if [w[1] for w in wr] in [[e[1] for e in x] for x in exps]:
+            field = "send-register-number"
+        else:
+            field = "register-writes"
+        vs.append(("C18:unipi:bus:%s" % field,
+                   "%s: wrote (register, values) %r; channel %d's send pair is registers %r, expected %r"
+                   % (where, wr, bus, lay["send"], exps[0])))
+    own = set(lay["recv"]) | {lay["fe"]}
+    dali_area = set()
+    for r in RW.UNIPI_REGS.values():
+        dali_area |= set(r["recv"]) | set(r["send"]) | {r["fe"]}
+    foreign = sorted({reg + i for reg, cnt in gw.reads for i in range(cnt)} & (dali_area - own))
+    if foreign:
+        vs.append(("C18:unipi:bus:receive-register-number",
+                   "%s: read registers %r (reads %r); channel %d's receive triple is %r, its framing-error counter %d"
+                   % (where, foreign, gw.reads, bus, lay["recv"], lay["fe"])))
+    # what the caller is told
+    got = norm_response(out)
+    if cmd.response is None:
+        ok = got in (("no-answer",), ("none",))
+        ref = {"kind": "none"}
+    elif answer is not None:
+        ref = {"kind": "backward", "value": answer}
+        ok = got == ("backward", answer)
+    elif fe == "own" and type(cmd).__name__ == "Compare":
+        ref = {"kind": "backward", "value": 0xFF}       # several gear said YES at once: counted as a framing error
+        ok = got in (("backward", 0xFF), ("framing-error",))
+    else:
+        ref = {"kind": "no-answer"}
+        ok = got == ("no-answer",)
+    if not ok and not vs:
+        vs.append(("C18:unipi:bus:decode:%s-reported-as-%s" % (ref["kind"], got[0]),
+                   "%s: the caller must see %r, got %r (writes %r, reads %r)" % (where, ref, got, wr, gw.reads)))
+    elif not ok:
+        vs[-1] = (vs[-1][0], vs[-1][1] + "; the caller got %r instead of %r" % (got, ref))
+    return vs
+
+
 def case_observe(case):
     """Tridonic HID: an observed forward frame reaches the bus_traffic callback with its bits intact."""
     env = _env()
@@ -958,7 +1117,7 @@ def case_observe(case):
 def run_case(case):
     kind = case["kind"]
     return {"encode": case_encode, "length": case_length, "seq": case_seq, "decode": case_decode,
-            "observe": case_observe}[kind](case)
+            "observe": case_observe, "unipi-bus": case_unipi_bus}[kind](case)
 
 
 # ------------------------------------------------------------------------ shards ----
@@ -1094,6 +1253,22 @@ def _misc_shard(arg):
                 list(range(0x100, 0x10000, 0x100)):
             for p in (range(256) if code == 0x100 else (0, 0x5A, 0xFF, 0xFF93, 0x1234)):
                 cases.append({"kind": "decode", "driver": "unipi", "code": code, "payload": p})
+    elif part == "unipi-bus":
+        f16 = [0x03A0, 0x0390, 0xFFA0, 0x020A, 0xFE00, 0x0500, 0x0920, 0xFF20, 0xA300 | (seed & 0xFF), 0xA900, 0xA500,
+               0xB900, 0x0380 | (seed % 16) | 0x100]
+        f24 = [0x03FE30, 0xFFFE36, 0xC13001, 0x01FE00 | (0x10 + seed % 8), 0x03FE10]
+        for bus in sorted(RW.UNIPI_REGS):
+            for bits, vals in ((16, f16), (24, f24)):
+                for v in vals:
+                    cmd = make_cmd(bits, v, 0)
+                    if cmd.response is None:
+                        variants = [(None, "none"), (0x5A, "own")]      # stray traffic must not become an answer
+                    else:
+                        variants = [(0x00, "none"), (0x5A, "none"), (0xFF, "other"), ((seed * 37 + bus) & 0xFF, "none"),
+                                    (None, "none"), (None, "other"), (None, "own")]
+                    for ans, fe in variants:
+                        cases.append({"kind": "unipi-bus", "driver": "unipi", "bus": bus, "bits": bits, "value": v,
+                                      "answer": ans, "fe": fe})
     elif part == "observe":
         gg = _env()["gg"]
         for v in [0xFE00 | x for x in range(0, 256, 5)] + [0x0200 | x for x in range(3, 256, 17)] + \
@@ -1102,6 +1277,17 @@ def _misc_shard(arg):
             cases.append({"kind": "observe", "bits": 16, "value": v, "origin": 0x12})
         for v in (0xC13001, 0xC13155, 0xC132FF, 0xFFFE36, 0x01FE36, 0xC10000, 0xC10600, 0x000001, 0xFE0455):
             cases.append({"kind": "observe", "bits": 24, "value": v})
+    if part in ("decode-luba", "decode-sci"):
+        # the same reports once more, each behind a packet with a damaged checksum
+        flips = (0x01, 0x80, 0xFF, 0x59)
+        extra = []
+        for k, case in enumerate(cases):
+            if part == "decode-luba" and case["code"] >> 6 == 2 and case["code"] & 63 == 8 and case["payload"][0] % 16 != 5:
+                continue
+            if part == "decode-sci" and case["code"] & 15 == 2 and case["payload"][2] % 16 != 5:
+                continue
+            extra.append(dict(case, damaged=flips[(k + seed) % 4]))
+        cases += extra
     for case in cases:
         if case["kind"] == "observe":
             case["driver"] = "tridonic-hid"
@@ -1132,7 +1318,7 @@ def run(ctx):
     shards = [("enc", items[k::nsh]) for k in range(nsh)]
     ctx.pmap(_enc_shard, shards)
     parts = ["length", "seq", "sendlevel", "decode-tridonic", "decode-legacy-tridonic", "decode-hasseb", "decode-luba",
-             "decode-sci", "decode-small", "observe"]
+             "decode-sci", "decode-small", "observe", "unipi-bus"]
     ctx.pmap(_misc_shard, [(p, ctx.seed, quick) for p in parts])
     res = ctx.result
     env = _env()
